@@ -49,7 +49,7 @@ func c10Run(p c10Params) func() {
 	return func() {
 		const R, T = 100 * ms, 300 * ms
 		H := 100000 * ms
-		if p.base == "heartbeat" {
+		if p.base == "heartbeat" || p.base == "reconnect-2sends" {
 			H = 200 * ms
 		}
 		network := "udp"
@@ -69,7 +69,10 @@ func c10Run(p c10Params) func() {
 					sock.Deliver(&knxnet.TunnelRes{Channel: req.Channel, SeqNumber: req.SeqNumber, Status: 0})
 				}
 			}
-		case "heartbeat":
+		case "heartbeat", "reconnect-2sends":
+			if p.base == "reconnect-2sends" {
+				gw.OnTunnelReq = func(req *knxnet.TunnelReq, s *fakesock.Sent) {} // never acknowledged
+			}
 			// heartbeats are never answered; the reconnect is accepted, refused or ignored
 			gw.OnConnState = func(req *knxnet.ConnStateReq, s *fakesock.Sent) {}
 			first := true
@@ -131,6 +134,19 @@ func c10Run(p c10Params) func() {
 				err := t.Send(Msg(0))
 				mc.Log(Ret{"Send", 0, errStr(err), t0})
 			})
+		case "reconnect-2sends":
+			// two Sends are outstanding (one waiting for its acknowledgement, one queued behind it)
+			// when the reconnect that follows the failed heartbeat succeeds
+			for i := 0; i < 2; i++ {
+				i := i
+				mc.GoEnv(fmt.Sprintf("app%d", i), func() {
+					mc.Sleep(mc.Duration(420+10*i) * ms)
+					mc.Log(Call{"Send", i})
+					t0 := mc.Now()
+					err := t.Send(Msg(i))
+					mc.Log(Ret{"Send", i, errStr(err), t0})
+				})
+			}
 		case "sockdead":
 			After(50*ms, "kill", func() { mc.Log(Note("socket dies")); sock.Kill() })
 		}
@@ -278,7 +294,7 @@ func c10Oracle(p c10Params) func(tr *mc.Trace) []h.Violation {
 
 func init() {
 	inst := []int{0, 50, 100, 150, 200, 300, 450, 500, 550, 650, 800}
-	for _, base := range []string{"send", "inbound", "heartbeat", "sockdead", "idle"} {
+	for _, base := range []string{"send", "inbound", "heartbeat", "reconnect-2sends", "sockdead", "idle"} {
 		for _, reader := range []bool{true, false} {
 			p := c10Params{base: base, closers: 1, reader: reader, instants: inst}
 			nm := fmt.Sprintf("C10-%s-reader=%v-1closer", base, reader)
